@@ -14,6 +14,9 @@ syntax), so that two ways of writing the same thing get one path table:
   N9  if c: continue ; REST   (loop body)   ->  if not c: REST
   N10 while A: if c: break ; REST           ->  while A and not c: REST
   N13 if A: if B: X   (no else)             ->  if A and B: X
+  N14 if c: while T: B1  else: while T: B2  ->  while T: if c: B1 else: B2        (c invariant: loop unswitching undone)
+  N15 while T[(x := E)]: B                  ->  while True: x = E; if not T[x]: break; B
+  N16 a if a < b else b                     ->  min(a, b)     (and the max / <= / >= forms)
   N12 for n, d in G.nodes(data=True)        ->  for n in G.nodes(): d = G.nodes[n]     (networkx)
   N7  try: return B[0]..  except IndexError: H   ->   if not B: H  else: return B[0]..   (one statement, no call; the
                                                                       entries of B are taken to be non-empty themselves)
@@ -167,6 +170,19 @@ class _Norm(ast.NodeTransformer):
 
     # N6: loop rotation
     def visit_While(self, node):
+        # N15: a walrus in the loop test:  while T[(x := E)]: B   ->   while True: x = E; if not T[x]: break; B
+        walr = [n for n in ast.walk(node.test) if isinstance(n, ast.NamedExpr)]
+        if len(walr) == 1 and not node.orelse and isinstance(walr[0].target, ast.Name):
+            w = walr[0]
+
+            class R(ast.NodeTransformer):
+                def visit_NamedExpr(self, n):
+                    return ast.Name(id=w.target.id, ctx=ast.Load())
+            test2 = R().visit(copy.deepcopy(node.test))
+            asg = ast.Assign(targets=[ast.Name(id=w.target.id, ctx=ast.Store())], value=w.value)
+            brk = ast.If(test=ast.UnaryOp(op=ast.Not(), operand=test2), body=[ast.Break()], orelse=[])
+            node = ast.While(test=ast.Constant(value=True), body=[asg, brk] + node.body, orelse=[])
+            ast.fix_missing_locations(ast.copy_location(node, w))
         self.generic_visit(node)
         node.body = self._continue_guards(node.body)
         # N10: while A: if c: break ; REST   ->   while A and not c: REST
@@ -269,9 +285,41 @@ class _Norm(ast.NodeTransformer):
                 return True
         return False
 
+    # ite forms of min / max:   a if a < b else b  ->  min(a, b)     a if a > b else b  ->  max(a, b)   (and the <=, >= forms:
+    # on a tie both operands have the same value)
+    def visit_IfExp(self, node):
+        self.generic_visit(node)
+        t = node.test
+        if isinstance(t, ast.Compare) and len(t.ops) == 1 and isinstance(t.ops[0], (ast.Lt, ast.LtE, ast.Gt, ast.GtE)):
+            l, r = t.left, t.comparators[0]
+            less = isinstance(t.ops[0], (ast.Lt, ast.LtE))
+            fn = None
+            if _same(node.body, l) and _same(node.orelse, r):
+                fn = 'min' if less else 'max'
+            elif _same(node.body, r) and _same(node.orelse, l):
+                fn = 'max' if less else 'min'
+            if fn and _cond_pure(l) and _cond_pure(r):
+                new = ast.Call(func=ast.Name(id=fn, ctx=ast.Load()), args=[copy.deepcopy(l), copy.deepcopy(r)], keywords=[])
+                return ast.fix_missing_locations(ast.copy_location(new, node))
+        return node
+
     # N3
     def visit_If(self, node):
         self.generic_visit(node)
+        # N14: loop unswitching undone:  if c: while T: B1  else: while T: B2   ->   while T: if c: B1 else: B2
+        # (c reads only names that neither loop assigns)
+        if len(node.body) == 1 and len(node.orelse) == 1 and isinstance(node.body[0], ast.While) and isinstance(node.orelse[0], ast.While) \
+                and not node.body[0].orelse and not node.orelse[0].orelse and ast.dump(node.body[0].test) == ast.dump(node.orelse[0].test) \
+                and _cond_pure(node.test):
+            w1, w2 = node.body[0], node.orelse[0]
+            assigned = {n.id for w in (w1, w2) for n in ast.walk(w) if isinstance(n, ast.Name) and isinstance(n.ctx, ast.Store)}
+            reads = {n.id for n in ast.walk(node.test) if isinstance(n, ast.Name)}
+            attr_reads = any(isinstance(n, ast.Attribute) for n in ast.walk(node.test))
+            if not (assigned & reads) and not attr_reads:
+                inner = ast.If(test=node.test, body=w1.body, orelse=w2.body)
+                new = ast.While(test=w1.test, body=[inner], orelse=[])
+                ast.copy_location(inner, node)
+                return ast.fix_missing_locations(ast.copy_location(new, node))
         # N13: if A: if B: X   (no else on either)   ->   if A and B: X
         while not node.orelse and len(node.body) == 1 and isinstance(node.body[0], ast.If) and not node.body[0].orelse:
             inner = node.body[0]
